@@ -27,6 +27,9 @@ RULE = ('Hypothesis rule-based state machine. State: a pool of trees (fixed seed
 ASSUMPTIONS = ['the model is produced by the code under test itself (fresh printer object), so this check decides '
                'reusability/purity, not correctness of a single print (C01/C02/C07/C08 do that)']
 
+from harness.gen_scope import wide_scope
+WIDE = wide_scope(240)  # enough names for two-letter generated names past `do`
+
 SEED_SOURCES = [
     ('var a = [1,,2,,,3,]; b = [,]; c = [,,x]; d = [];', False),
     ('function f(a, b) { var c = a + b; return function g(d) { return c + d + g(a); }; }', False),
@@ -114,8 +117,11 @@ class World(object):
         self.shared = shared_fingerprint()
         self.full_by_printer = {}
         self.interesting = False
+        self.touched = set()
+        self.rot = 0
         for src, wc in SEED_SOURCES:
             self.new_tree(src, wc, record=False)
+        self.wide_prints = 0
         self.new_printer(0, record=False)
         self.new_printer(5, record=False)
 
@@ -144,6 +150,7 @@ class World(object):
         self.history.append(['print_full', pi, ti])
         pi %= len(self.printers)
         ti %= len(self.trees)
+        self.touched.add(ti)
         cfg, printer, dirty = self.printers[pi]
         exp = self.expected(cfg, ti)
         got = [tuple(f) for f in printer(self.trees[ti][1])]
@@ -158,10 +165,30 @@ class World(object):
         if len(seen) >= 2 and (obf or dirty):
             self.interesting = True
 
+    def print_wide(self, pi):
+        """a scope wide enough for two-letter generated names, printed by a (re)used printer; at most
+        twice per history (it is expensive)"""
+        self.history.append(['print_wide', pi])
+        if self.wide_prints >= 2:
+            return
+        self.wide_prints += 1
+        if not any(k[0] == (WIDE, False) for k in self.trees):
+            # parsing this text takes seconds: one tree per worker process, shared by all histories
+            # (its fingerprint is taken once, so a mutation by any history is still detected)
+            if 'tree' not in _WIDE_CACHE:
+                _WIDE_CACHE['tree'] = self.parse(WIDE)
+                _WIDE_CACHE['fp'] = fingerprint(_WIDE_CACHE['tree'])
+            self.trees.append(((WIDE, False), _WIDE_CACHE['tree'], _WIDE_CACHE['fp']))
+        ti = next(i for i, k in enumerate(self.trees) if k[0] == (WIDE, False))
+        self.history.pop()
+        self.print_full(pi, ti)
+        self.history[-1] = ['print_wide', pi]
+
     def print_abandon(self, pi, ti, k, close):
         self.history.append(['print_abandon', pi, ti, k, close])
         pi %= len(self.printers)
         ti %= len(self.trees)
+        self.touched.add(ti)
         gen = self.printers[pi][1](self.trees[ti][1])
         for _ in range(k):
             try:
@@ -233,8 +260,18 @@ class World(object):
         if a != b:
             raise Violation('shortcut_differs', {'kind': kind, 'source': src, 'shortcut': a[:300], 'explicit': b[:300]})
 
-    def check_invariant(self):
-        for key, t, fp in self.trees:
+    def check_invariant(self, full=False):
+        # the trees touched by the last operation, plus one other in rotation (every tree when full)
+        idx = set(self.touched)
+        if self.trees:
+            self.rot = (self.rot + 1) % len(self.trees)
+            if len(self.trees[self.rot][0][0]) < 2000:
+                idx.add(self.rot)
+        if full:
+            idx = set(range(len(self.trees)))
+        self.touched = set()
+        for i in idx:
+            key, t, fp = self.trees[i]
             if fingerprint(t) != fp:
                 raise Violation('tree_modified_by_printing', {'tree': key[0][:200], 'history_len': len(self.history)})
         if shared_fingerprint() != self.shared:
@@ -248,6 +285,8 @@ class World(object):
             self.new_printer(op[1])
         elif name == 'print_full':
             self.print_full(op[1], op[2])
+        elif name == 'print_wide':
+            self.print_wide(op[1])
         elif name == 'print_abandon':
             self.print_abandon(op[1], op[2], op[3], op[4])
         elif name == 'print_raising':
@@ -258,6 +297,7 @@ class World(object):
 
 
 LAST = {}
+_WIDE_CACHE = {}
 STATS = {'histories': 0, 'steps': 0, 'interesting': set(), 'ops': {}, 'samples': []}
 
 SHORT_SRC = st.sampled_from([s for s, _ in SEED_SOURCES] + ['a = 1', 'function f(){}', 'x = [1,,2]', 'if (a) b; else c',
@@ -297,6 +337,10 @@ class Machine(RuleBasedStateMachine):
         for t in (t1, t2, t3, t1):
             self._do(self.w.print_full, pi, t)
 
+    @rule(pi=st.integers(0, 40))
+    def print_wide(self, pi):
+        self._do(self.w.print_wide, pi)
+
     @rule(pi=st.integers(0, 40), ti=st.integers(0, 40), k=st.integers(0, 30), close=st.booleans())
     def print_abandon(self, pi, ti, k, close):
         self._do(self.w.print_abandon, pi, ti, k, close)
@@ -311,6 +355,13 @@ class Machine(RuleBasedStateMachine):
         self._do(self.w.shortcut, src, kind, wc)
 
     def teardown(self):
+        try:
+            self.w.check_invariant(full=True)
+        except Violation as v:
+            LAST['history'] = list(self.w.history)
+            LAST['bucket'] = v.bucket
+            LAST['detail'] = v.detail
+            raise
         STATS['histories'] += 1
         STATS['steps'] += len(self.w.history)
         key = json.dumps(self.w.history, sort_keys=True)
@@ -327,6 +378,7 @@ def replay(case, acc):
     try:
         for op in case['history']:
             w.apply(op)
+        w.check_invariant(full=True)
     except Violation as v:
         acc.fail(None, case, {'bucket': v.bucket, 'detail': v.detail}, ())
 
